@@ -59,7 +59,7 @@ def add_reference_cases():
     return True
 
 
-def set_existing_field(cls, fieldname, vlevel, connected, set_reference, value_is_None, value_is_placeholder, value_is_valid, lookup):
+def set_existing_field(cls, fieldname, vlevel, connected, set_reference, value_is_None, value_is_placeholder, value_is_valid, lookup, has_field=False):
     """replay of a counter-model of FieldData._set_existing_field on a real Gfa; returns True if the contract held"""
     from bounded import state
     docs = {"segment.GFA1": (["S\tA\t*", "S\tB\t*"], "A", "B"), "edge.Link": (["S\tA\t*", "S\tB\t*", "L\tA\t+\tB\t+\t*\tID:Z:lk"], "lk", "B"),
@@ -78,6 +78,10 @@ def set_existing_field(cls, fieldname, vlevel, connected, set_reference, value_i
         value = "a\tb"
     else:
         value = {0: "Zz", 1: name, 2: taken}[lookup]
+    if fieldname not in l.positional_fieldnames and not l._is_predefined_tag(fieldname):
+        fieldname = "xx"                       # a custom tag stands for every field that is neither positional nor predefined
+    if fieldname == "xx" and has_field:
+        l.set("xx", 1)
     before = state.snapshot(g)
     try:
         l._set_existing_field(fieldname, value, set_reference=set_reference)
@@ -92,6 +96,15 @@ def set_existing_field(cls, fieldname, vlevel, connected, set_reference, value_i
         return "renamed onto the identifier of another line without error; names=%s" % sorted(map(str, g.names))
     if vlevel >= 3 and value == "a\tb":
         return "invalid value stored at level 3"
+    if fieldname == "xx" and has_field and value is None:
+        # the tag is gone with its datatype: a text assigned now makes a new Z tag
+        try:
+            l.set("xx", "s")
+            written = str(l).split("\t")
+        except gfapy.Error as e:
+            return "tag xx:i:1 removed by assigning None, then 's' assigned: %s (%s)" % (type(e).__name__, " ".join(str(e).split())[:120])
+        if "xx:Z:s" not in written:
+            return "tag xx:i:1 removed by assigning None, then 's' assigned: written %r" % [f for f in str(l).split("\t") if f.startswith("xx:")]
     u = state.uniq_errors(g)
     if u:
         return "UNIQ broken: %s" % (u[0],)
